@@ -18,6 +18,7 @@ import dataclasses
 import datetime
 import json
 import math
+import os
 import warnings
 from fractions import Fraction
 
@@ -83,6 +84,7 @@ def rand_triangle_cells(rng, n_slices=None, small=False, for_plot=False):
             rows = shared_rows
         for ps, pe, evals in rows:
             prev = ps - datetime.timedelta(days=1)
+            flat_next = [None]
             for j, ev in enumerate(evals):
                 sample = style == "sample" or (style == "mixed" and j >= max(1, len(evals) // 2))
                 vals = {}
@@ -93,7 +95,9 @@ def rand_triangle_cells(rng, n_slices=None, small=False, for_plot=False):
                     else:
                         vk = "int" if int_valued else "float"
                     vals[f] = gen.rand_value(rng, vk, n_samples, lo=1, hi=2048)
-                if not for_plot:
+                if flat_next[0] is not None and not sample and not for_plot:
+                    vals, flat_next[0] = {k: v for k, v in flat_next[0].items()}, None
+                elif not for_plot:
                     r = rng.random()
                     if r < 0.08:
                         del vals["earned_premium"]            # absent premium: no loss ratios
@@ -105,6 +109,13 @@ def rand_triangle_cells(rng, n_slices=None, small=False, for_plot=False):
                         vals["paid_loss"] = None
                     elif r < 0.22 and sample:
                         vals["paid_loss"] = vals["paid_loss"][:1]       # length-1 sample
+                    elif r < 0.30 and style == "scalar":
+                        # (scalar triangles only: with an array successor numpy divides by zero -> inf, no raise)
+                        # a PRESENT input whose value is zero: ratio 0 / pass-through 0 must still be reported
+                        # (as a divisor it raises for Python scalars: no age-to-age value from this cell)
+                        vals[rng.choice(["paid_loss", "reported_loss"])] = rng.choice([0, 0.0])
+                    elif r < 0.34 and not sample and j + 1 < len(evals):
+                        flat_next[0] = dict(vals)                        # next evaluation repeats these values: incremental ATA = 0
                 if kind == "I":
                     cells.append(gen.IncrementalCell(ps, pe, prev, ev, vals, m))
                     prev = ev
@@ -379,50 +390,95 @@ def count_facets(spec):
     return 1
 
 
+_PLOT_TRIS = []      # triangles of the current run; inherited by the forked workers
+
+
+def _plot_one(task):
+    """build one chart in a worker process and validate it; returns a plain record"""
+    ti, name = task
+    tri = _PLOT_TRIS[ti]
+    rec = {"ti": ti, "name": name, "status": "ok", "detail": None, "facets": None}
+    try:
+        with warnings.catch_warnings():
+            warnings.simplefilter("ignore")
+            chart = getattr(tri, name)()
+    except TypeError as e:
+        if name in KNOWN_BROKEN_PLOTS and "X.title()" in str(e):
+            rec.update(status="known-broken", detail=str(e)[:120])
+        else:
+            rec.update(status="raised", detail=f"{type(e).__name__}: {str(e)[:300]}")
+        return rec
+    except Exception as e:  # noqa: BLE001
+        rec.update(status="raised", detail=f"{type(e).__name__}: {str(e)[:300]}")
+        return rec
+    try:
+        with warnings.catch_warnings():
+            warnings.simplefilter("ignore")
+            spec = chart.to_dict(validate=True)
+        json.dumps(spec, default=str)
+    except Exception as e:  # noqa: BLE001
+        rec.update(status="invalid", detail=f"{type(e).__name__}: {str(e)[:300]}")
+        return rec
+    if "$schema" not in spec or "vega-lite" not in str(spec["$schema"]):
+        rec.update(status="not-vega-lite", detail=str(spec.get("$schema")))
+        return rec
+    rec["facets"] = count_facets(spec)
+    return rec
+
+
 def plot_checks(ctx, rng):
+    import multiprocessing as mp
+
     names = sorted(n for n in dir(Triangle) if n.startswith("plot_"))
     n_tri = 12 if ctx.thorough else 6
     slices_plan = [1, 2, 3, 1, 2, 3, 2, 3, 1, 2, 3, 2][:n_tri]
     excluded, supported_seen = {}, set()
-    for ti, ns in enumerate(slices_plan):
+    _PLOT_TRIS.clear()
+    for ns in slices_plan:
         cells, desc = rand_triangle_cells(rng, n_slices=ns, small=True, for_plot=True)
-        tri = Triangle(cells)
-        ns_real = len(tri.slices)
+        _PLOT_TRIS.append(Triangle(cells))
+    tasks = []
+    for ti in range(n_tri):
         for name in names:
             if not ctx.thorough and name in HEAVY_PLOTS and ti in (3, 5):
                 continue      # quick tier: the three slowest chart builders run on 4 of the 6 triangles
-            case = {"plot": name, "cells": w_cells(tri.cells)}
-            try:
-                with warnings.catch_warnings():
-                    warnings.simplefilter("ignore")
-                    chart = getattr(tri, name)()
-            except TypeError as e:
-                if name in KNOWN_BROKEN_PLOTS and "X.title()" in str(e):
-                    excluded[name] = str(e)[:120]
-                    continue
-                ctx.fail(f"{name} raised {type(e).__name__}", case, str(e)[:300])
-                continue
-            except Exception as e:  # noqa: BLE001
-                ctx.fail(f"{name} raised {type(e).__name__}", case, str(e)[:300])
-                continue
-            supported_seen.add(name)
-            try:
-                with warnings.catch_warnings():
-                    warnings.simplefilter("ignore")
-                    spec = chart.to_dict(validate=True)
-                json.dumps(spec, default=str)
-            except Exception as e:  # noqa: BLE001
-                ctx.fail(f"{name}: chart does not serialise to a valid Vega-Lite specification", case,
-                         f"{type(e).__name__}: {str(e)[:300]}")
-                continue
-            if "$schema" not in spec or "vega-lite" not in spec["$schema"]:
-                ctx.fail(f"{name}: serialised chart is not a Vega-Lite specification", case, spec.get("$schema"))
-            nf = count_facets(spec)
-            if nf != ns_real:
-                ctx.fail(f"{name}: {nf} facets for {ns_real} slices", case)
-            ctx.count(f"plot/{name}")
-            ctx.case(digest=json.dumps([name, case["cells"]], sort_keys=True), nontrivial=True,
-                     sample={"plot": name, "slices": ns_real, "facets": nf} if ti == 0 and name == "plot_heatmap" else None)
+            tasks.append((ti, name))
+    # heaviest first, one chart per task, forked workers (the charts are independent)
+    order = sorted(range(len(tasks)), key=lambda i: (tasks[i][1] not in HEAVY_PLOTS, -len(_PLOT_TRIS[tasks[i][0]].slices), i))
+    jobs = int(os.environ.get("VERIF_JOBS", "0") or 0) or max(1, min(8, (os.cpu_count() or 2) // 2))
+    if jobs > 1:
+        with mp.get_context("fork").Pool(jobs) as pool:
+            done = pool.map(_plot_one, [tasks[i] for i in order], chunksize=1)
+    else:
+        done = [_plot_one(tasks[i]) for i in order]
+    recs = [None] * len(tasks)
+    for i, r in zip(order, done):
+        recs[i] = r
+    for rec in recs:
+        ti, name = rec["ti"], rec["name"]
+        tri = _PLOT_TRIS[ti]
+        ns_real = len(tri.slices)
+        case = {"plot": name, "cells": w_cells(tri.cells)}
+        st = rec["status"]
+        if st == "known-broken":
+            excluded[name] = rec["detail"]
+            continue
+        if st == "raised":
+            ctx.fail(f"{name} raised {rec['detail'].split(':')[0]}", case, rec["detail"])
+            continue
+        supported_seen.add(name)
+        if st == "invalid":
+            ctx.fail(f"{name}: chart does not serialise to a valid Vega-Lite specification", case, rec["detail"])
+            continue
+        if st == "not-vega-lite":
+            ctx.fail(f"{name}: serialised chart is not a Vega-Lite specification", case, rec["detail"])
+            continue
+        nf = rec["facets"]
+        if nf != ns_real:
+            ctx.fail(f"{name}: {nf} facets for {ns_real} slices", case)
+        ctx.count(f"plot/{name}")
+        ctx.case(digest=json.dumps([name, case["cells"]], sort_keys=True), nontrivial=True,
+                 sample={"plot": name, "slices": ns_real, "facets": nf} if ti == 0 and name == "plot_heatmap" else None)
     ctx.notes.append(f"plot methods checked: {sorted(supported_seen)}")
     ctx.notes.append("plot methods EXCLUDED (fail on the unchanged tree, altair API: "
                      f"X.title() positional+keyword): {excluded}")
@@ -479,10 +535,9 @@ def correspondence(ctx):
 
 
 if __name__ == "__main__":
-    gen_note = translate_c20.regenerate()
     common.run_check(
         "C20", module="Bermuda.Properties.C20", driver_targets=["drv_c20"],
-        correspondence=correspondence, level="translation_validation",
+        correspondence=correspondence, level="translation_validation", extra_translate=translate_c20.regenerate,
         rule="random triangles with the standard loss/premium fields (+ sometimes reported_claims / incurred_loss): "
              "scalar, sample (2-11 samples) or mixed observed/predicted; 1-3 slices with different or shared layouts; "
              "regular, ragged and day-level; cells lacking premium / a loss field / holding None / a Python zero premium / "
@@ -494,7 +549,7 @@ if __name__ == "__main__":
                      "plots: scalar or mixed observed/predicted triangles (an all-sample triangle makes "
                      "_remove_triangle_samples return an empty triangle and several plot methods raise IndexError)"],
         trusted=["numpy quantile/median/std conventions as modelled (linear interpolation, population sd)",
-                 "harness/translate_c20.py (metric lambdas -> MExpr, regenerated each run): " + json.dumps(gen_note),
+                 "harness/translate_c20.py (metric lambdas -> MExpr, regenerated under the build lock each run)",
                  "altair's bundled Vega-Lite JSON schema and jsonschema validation (chart validity is correspondence only)",
                  "sd: the square root is outside the model; compared numerically through its square"],
     )
